@@ -44,6 +44,7 @@ struct Rendered {
     display: String,
     short: Vec<u8>,
     swaps: u64,
+    api_mismatch: Option<String>,
 }
 
 const HDR: (&str, &str) = ("a/old name.txt", "b/new.txt");
@@ -64,9 +65,35 @@ fn render(alg: Algorithm, as_str: bool, old: &[u8], new: &[u8], r: Render, repai
                 }
                 let mut w = Vec::new();
                 u.to_writer(&mut w).expect("Vec<u8> never fails");
+                // hunk-level API: the whole diff is the (optional) file header + every hunk
+                let mut by_hunks: Vec<u8> = Vec::new();
+                let mut by_hunks_display = String::new();
+                let mut first = true;
+                for h in u.iter_hunks() {
+                    if first && r.header {
+                        by_hunks.extend_from_slice(format!("--- {}\n+++ {}\n", HDR.0, HDR.1).as_bytes());
+                        by_hunks_display.push_str(&format!("--- {}\n+++ {}\n", HDR.0, HDR.1));
+                    }
+                    first = false;
+                    let before = by_hunks.len();
+                    h.to_writer(&mut by_hunks).expect("Vec<u8> never fails");
+                    by_hunks_display.push_str(&h.to_string());
+                    // the hunk's own header() is the first line it writes
+                    let hl = format!("{}\n", h.header());
+                    if !by_hunks[before..].starts_with(hl.as_bytes()) {
+                        by_hunks.extend_from_slice(b"<<hunk.header() differs from the written header line>>");
+                    }
+                }
+                let api_mismatch = if by_hunks != w {
+                    Some(format!("header + iter_hunks().map(to_writer) gives {} but UnifiedDiff::to_writer {}", show(&by_hunks), show(&w)))
+                } else if by_hunks_display != u.to_string() {
+                    Some("header + iter_hunks().map(to_string) differs from UnifiedDiff::to_string".to_string())
+                } else {
+                    None
+                };
                 let mut sw = ShortWriter { buf: Vec::new(), max: 3 };
                 u.to_writer(&mut sw).expect("ShortWriter never fails");
-                (w, u.to_string(), sw.buf)
+                (w, u.to_string(), sw.buf, api_mismatch)
             }};
         }
         if as_str {
@@ -79,7 +106,7 @@ fn render(alg: Algorithm, as_str: bool, old: &[u8], new: &[u8], r: Render, repai
     });
     vh::set_swap_repair(false);
     let swaps = vh::swaps() - swaps0;
-    res.map(|(writer, display, short)| Rendered { writer, display, short, swaps })
+    res.map(|(writer, display, short, api_mismatch)| Rendered { writer, display, short, swaps, api_mismatch })
 }
 
 fn strict_failures(old: &[u8], new: &[u8], bytes: &[u8], r: Render) -> Vec<(&'static str, String)> {
@@ -148,6 +175,9 @@ fn case(cfg: &Config, alg: Algorithm, old: &[u8], new: &[u8], renders: &[Render]
                     "patch.display_not_lossy_writer",
                     format!("Display {} is not the lossy decoding of the writer's bytes {} | {}", show(rd.display.as_bytes()), show(&rd.writer), ctx()),
                 );
+            }
+            if let Some(m) = &rd.api_mismatch {
+                out.violation("patch.hunk_api_disagrees", format!("{} | {}", m, ctx()));
             }
             if rd.short != rd.writer {
                 out.violation(
@@ -221,6 +251,32 @@ pub fn families() -> Vec<Box<dyn Family>> {
                     })
                     .collect();
                 out.sample(|| format!("alg={} old={} new={} renderings={:?}", alg_name(alg), show(&a), show(&b), renders));
+                if a != b {
+                    out.nontrivial(&(alg_name(alg), &a, &b));
+                }
+                case(cfg, alg, &a, &b, &renders, out);
+            },
+        ),
+        family(
+            "long_texts",
+            "long line texts (30..3000 lines quick / 20000 thorough; vocabulary 3 / 40 / unique; LF, CRLF, CR or mixed terminators; missing final newline) with up to 12 scattered line edits (delete/insert blocks, duplicate, swap, replace) so that diffs have MANY hunks at multi-digit line numbers x one algorithm x 3 renderings",
+            false,
+            1,
+            |cfg| cfg.n(150, 2_000),
+            |idx, cfg, out| {
+                let mut rng = Rng::for_case(cfg.seed, "c05.long_texts", idx);
+                let n = if cfg.tiny { 6 } else { *rng.pick(&[30usize, 99, 100, 101, 999, 1000, 1001, cfg.tier.pick(3000, 20_000)]) };
+                let n = if n > 1001 { rng.range(1500, n) } else { n };
+                let (a, b) = text_gen::long_text_pair(&mut rng, n, 12);
+                let alg = if n <= 300 { ALGS[rng.below(3)] } else { ALGS[rng.below(2)] };
+                let renders: Vec<Render> = (0..3)
+                    .map(|_| Render {
+                        radius: *rng.pick(&[0usize, 1, 3, 3, 7, 50]),
+                        header: rng.chance(1, 2),
+                        hint: true,
+                    })
+                    .collect();
+                out.sample(|| format!("alg={} {} lines, renderings={:?}, old starts {}", alg_name(alg), n, renders, show(&a[..a.len().min(60)])));
                 if a != b {
                     out.nontrivial(&(alg_name(alg), &a, &b));
                 }
